@@ -21,7 +21,7 @@ struct Profile {
   // history op weights
   int w_build = 10, w_edit = 6, w_touch = 2, w_del_out = 3, w_change_cmd = 2, w_change_rsp = 1,
       w_manifest_edit = 0, w_regen = 1, w_del_log = 1, w_clean = 0, w_cleandead = 0, w_tool_ro = 0,
-      w_dry = 0, w_recompact = 0, w_restat_tool = 0, w_del_depfile = 1, w_edit_includes = 2, w_empty_source = 1, w_inflate_log = 1, w_include_churn = 2, w_block_dir = 0, w_missing_source = 0, w_dyndep_stir = 0;
+      w_dry = 0, w_recompact = 0, w_restat_tool = 0, w_del_depfile = 1, w_edit_includes = 2, w_empty_source = 1, w_inflate_log = 1, w_include_churn = 2, w_block_dir = 0, w_missing_source = 0, w_missing_dyndep_source = 0, w_dyndep_stir = 0;
   int min_ops = 3, max_ops = 9;
   // fault kinds for builds (per mille of builds / commands)
   int pm_cmd_fail = 0;        // a command fails
@@ -85,10 +85,17 @@ struct InvPlan {
   bool explain = false, keeprsp = false, keepdepfile = false;
   bool tty = false;
   int cols = 80;
+  int color_env = 0;         // bit 0..5: NO_COLOR=1, CLICOLOR_FORCE=1, FORCE_COLOR=1, NO_COLOR=0, CLICOLOR_FORCE=0, FORCE_COLOR=0 ("0" means unset)
+  // colour support as the conventions (no-color.org, CLICOLOR_FORCE, FORCE_COLOR) and ninja's manual give it: a smart
+  // terminal has it unless NO_COLOR is set; without a smart terminal CLICOLOR_FORCE gives it unless NO_COLOR is set,
+  // FORCE_COLOR gives it in any case; a value of "0" counts as not set
+  bool Color() const { bool nc = color_env & 1, cf = color_env & 2, fc = color_env & 4; if (tty && !nc) return true; return (!nc && cf) || fc; }
   int status_mode = 0;       // 0 default, 1 NINJA_STATUS env, 2 --status
   std::vector<std::string> tool;     // "-t" args when this is a tool run
   bool jobserver = false;
   int js_tokens = 0, js_peers = 0;
+  int js_variant = 0;        // spelling of MAKEFLAGS: 0-3 describe the fifo pool in different legal ways, 4-8 say "no jobserver" (see World::RunInvocation)
+  bool JsActive() const { return jobserver && js_variant <= 3; }
   std::map<int, std::pair<int, int>> fail;   // stmt -> (wait status, mode 0 untouched / 1 all written / 2 partial)
   int on_signal = 0;
   FaultPlan fp;
@@ -97,6 +104,7 @@ struct InvPlan {
   int nproc = 4;
   bool record_sys = false;   // probe run: record the kind of every syscall
   std::string status_fmt;    // C13: arbitrary status format (NINJA_STATUS when status_mode==1, --status when 2)
+  std::string makeflags;     // C13: arbitrary MAKEFLAGS when the build is not a jobserver client
   bool garbage_child_output = false;   // C13: deps = msvc children print arbitrary bytes
 };
 
